@@ -100,6 +100,17 @@ func c06Plan(tier string) []PlanItem {
 		Item{At: 1*s.H + 60*ms, Actor: "lifeB", Do: "start", Inst: "B", Fixed: true})
 	s.AllowDrop = true
 	add(s, d)
+	// the candidate's watch lags: every notification is held back and may be delivered at
+	// any later choice point, in order (a stale event about the old record landing inside an
+	// acquisition round); vacancy by graceful stop and by crash
+	s = scnFailoverDel("failover-del2-K1-lagging-watch", K1, "A", "B")
+	s.HoldWatch = true
+	s.LatencyBound = 0
+	add(s, d)
+	s = scnFailoverCrash("failover-crash2-K1-lagging-watch", K1, "A", "B")
+	s.HoldWatch = true
+	s.LatencyBound = 0
+	add(s, d)
 	// the candidate's watch channel closes before the vacancy
 	s = scnFailoverDel("failover-del2-K1-watch-closed", K1, "A", "B")
 	s.Script = append(s.Script, Item{At: 1*s.H + 11*ms, Actor: "chaos", Do: "closewatch", Inst: "B"})
